@@ -4,7 +4,7 @@
    listener listen() returned; Message only while established (or a datagram on a listener);
    Disconnected only while established and never after a successful local remove(); nothing after
    the end; no id handed out twice. *)
-From MIO Require Import Base Gen ResId ResIdProofs Driver DriverProofs.
+From MIO Require Import Base Gen ResId ResIdProofs Driver DriverProofs DriverIso.
 Local Open Scope N_scope.
 
 (* (third conjunct: the readiness probes of tcp.rs / framed_tcp.rs never close the descriptor they
@@ -45,6 +45,22 @@ Example C03_examples :
      OEv (Connected (261, 4) true); ORet (URemove 261) (RRemove true); OEv (Message (261, 4) 7)].
 Proof. vm_compute. reflexivity. Qed.
 
+(* "A failed connect yields Connected(.., false) and nothing else, a failed inbound handshake yields
+   no event at all" -- and either way the resource is gone; "nothing" before the handshake is
+   decided.  (No user calls inside the callbacks; with them C03_lifecycle_regular still applies.) *)
+Theorem C03_failed_pending_events : forall (s : dstate) (id : rid) (rd : readiness) (a : answer) (p : rprops),
+  resource_type gen_layout id = Remote -> find_remote id (remotes s) = Some p -> r_ready p = false ->
+  a_pending a = PDisconnected -> quiet a ->
+  snd (process s id rd a) = match r_local p with None => [OEv (Connected (id, r_peer p) false)] | Some _ => [] end /\
+  find_remote id (remotes (fst (process s id rd a))) = None.
+Proof. exact failed_pending_events. Qed.
+
+Theorem C03_incomplete_pending_silent : forall (s : dstate) (id : rid) (rd : readiness) (a : answer) (p : rprops),
+  resource_type gen_layout id = Remote -> find_remote id (remotes s) = Some p -> r_ready p = false ->
+  a_pending a = PIncomplete -> quiet a ->
+  process s id rd a = (s, []).
+Proof. exact incomplete_pending_silent. Qed.
+
 (* connect_sync (network.rs) = connect() then is_ready() every millisecond; Some true -> Ok,
    None -> Err(ConnectionRefused).  For EVERY script and every moment at which connect_sync may
    poll: if the id came from connect(), the user did not remove() it, and the history is outside
@@ -79,5 +95,7 @@ Proof.
 Qed.
 
 Print Assumptions C03_gen_obligation.
+Print Assumptions C03_failed_pending_events.
+Print Assumptions C03_incomplete_pending_silent.
 Print Assumptions C03_connect_sync_truthful_outside_K1.
 Print Assumptions C03_lifecycle_regular.
